@@ -365,6 +365,28 @@ pub fn d4_class(sched: &[Ev], len: usize) -> bool {
     }
 }
 
+/// offsets right after the low byte 0x0A of each line feed of a UTF-16LE+BOM
+/// stream: `data[..c]` ends inside a line feed (the inputs of the repaired
+/// finding D6), and a reader that has handed out `c` bytes is asked next for
+/// the extra byte `read_line` fetches after a 0x0A
+pub fn lf_cuts_utf16le(data: &[u8]) -> Vec<usize> {
+    (2..data.len().saturating_sub(1)).step_by(2).filter(|&p| data[p] == 0x0A && data[p + 1] == 0).map(|p| p + 1).collect()
+}
+
+/// a sample of `v`: first, last and up to `n` others
+pub fn sample_of(r: &mut Rng, v: &[usize], n: usize) -> Vec<usize> {
+    if v.len() <= n + 2 {
+        return v.to_vec();
+    }
+    let mut s = vec![v[0], v[v.len() - 1]];
+    for _ in 0..n {
+        s.push(v[r.below(v.len())]);
+    }
+    s.sort();
+    s.dedup();
+    s
+}
+
 /// Records an oracle failure; instances of a known-finding class beyond the
 /// first 20 are only counted, so that they can never crowd out an unlisted one.
 pub fn fail(out: &mut Out, class: &str, input: &str, detail: &str) {
@@ -440,7 +462,7 @@ fn work_dir() -> std::path::PathBuf {
     std::env::args().nth(5).map(std::path::PathBuf::from).unwrap_or_else(|| std::path::PathBuf::from("work/C08"))
 }
 
-pub const RULE: &str = "byte streams (bundled maps, generated .osu texts with Unicode content, mutated/noise streams; each in UTF-8, UTF-8+BOM, UTF-16LE+BOM, UTF-16BE+BOM) delivered through a BufRead that follows an explicit schedule: every fixed chunk size 1..64, random variable schedules, random Interrupted placements, first chunks of 1 and 2 bytes, explicit EOF reads; the implementation's line decoder output is compared with the model's read_all_lines; non-trivial = at least 3 bytes, at least 2 events and at least one complete line; distinct = distinct case lines";
+pub const RULE: &str = "byte streams (bundled maps, generated .osu texts with Unicode content, mutated/noise streams; each in UTF-8, UTF-8+BOM, UTF-16LE+BOM, UTF-16BE+BOM) delivered through a BufRead that follows an explicit schedule: every fixed chunk size 1..64, random variable schedules, random Interrupted placements, first chunks of 1 and 2 bytes, explicit EOF reads; UTF-16LE streams cut right after the low byte of a line feed at every chunk size, with Interrupted at the read of the byte after a 0x0A; the implementation's line decoder output is compared with the model's read_all_lines; non-trivial = at least 3 bytes, at least 2 events and at least one complete line; distinct = distinct case lines";
 
 /// one correspondence case + oracle check of a scheduled decode against the
 /// one-buffer reference
@@ -601,6 +623,54 @@ pub fn generate(tier: &str, seed: u64, out: &mut Out) {
             if !big || enc == 0 || thorough {
                 other_paths(out, name, enc, &data, &reference, file_no);
                 file_no += 1;
+            }
+        }
+    }
+
+    // UTF-16LE streams that end right after the low byte of a line feed, at every chunking (the
+    // inputs of the repaired finding D6: the clean end of the stream became UnexpectedEof), and
+    // complete streams with Interrupted exactly at the read of the byte after a 0x0A
+    {
+        let mut cut_texts: Vec<(String, String)> = all.iter().filter(|(_, t)| t.len() <= 1500 && t.contains('\n')).take(if thorough { 40 } else { 5 }).cloned().collect();
+        cut_texts.push(("corpus".into(), "osu file format v14\n\n[Metadata]\nTitle:abc\n".into()));
+        cut_texts.push(("corpus-crlf".into(), "osu file format v14\r\n[Metadata]\r\nTitle:abc\r\n".into()));
+        for (name, text) in &cut_texts {
+            let full = encode_text(text, 2);
+            let cuts = lf_cuts_utf16le(&full);
+            let full_ref = decode_bytes(&full);
+            for c in sample_of(&mut r, &cuts, if thorough { 12 } else { 2 }) {
+                let data = &full[..c];
+                let name = format!("{name} cut after the low byte of the line feed at {}", c - 1);
+                let reference = decode_bytes(data);
+                out.count("file.utf16le_lf_cut");
+                out.oracle_checks += 1;
+                if let Ok(Err(e)) = &reference {
+                    out.fail("", &describe(&name, 2, c, &[]), &format!("from_bytes returned Err({:?}) although an in-memory reader reports no failure", e.kind()));
+                }
+                one(out, &name, 2, data, &[], &reference, true);
+                for k in 1..=64usize.min(c + 1) {
+                    one(out, &name, 2, data, &fixed_sched(k, c), &reference, thorough || k <= 8 || k % 9 == 0 || k + 1 >= c);
+                }
+                // exactly c bytes, then: EOF reads / Interrupted at the extra-byte read
+                let pieces: [Vec<Ev>; 5] = [
+                    vec![Ev::Chunk(c)],
+                    vec![Ev::Chunk(c), Ev::Interrupted],
+                    vec![Ev::Chunk(c), Ev::Interrupted, Ev::Interrupted, Ev::Chunk(1), Ev::Chunk(1)],
+                    vec![Ev::Chunk(3), Ev::Chunk((c - 3).max(1)), Ev::Chunk(1), Ev::Interrupted, Ev::Chunk(1)],
+                    vec![Ev::Interrupted, Ev::Chunk((c - 1).max(3)), Ev::Interrupted, Ev::Chunk(1), Ev::Interrupted],
+                ];
+                for s in &pieces {
+                    one(out, &name, 2, data, s, &reference, true);
+                }
+                for k in 0..(if thorough { 6 } else { 2 }) {
+                    let s = rand_sched(&mut r, c, 3, k % 2 == 0);
+                    one(out, &name, 2, data, &s, &reference, true);
+                }
+                // the complete stream: the source is interrupted when asked for the byte after the 0x0A
+                for s in [vec![Ev::Chunk(c), Ev::Interrupted, Ev::Chunk(1), Ev::Interrupted, Ev::Chunk(full.len())], vec![Ev::Chunk(c), Ev::Interrupted, Ev::Interrupted, Ev::Chunk(7)]] {
+                    one(out, name.split(' ').next().unwrap_or("text"), 2, &full, &s, &full_ref, true);
+                    out.count("schedule.interrupted_at_extra_byte_read");
+                }
             }
         }
     }
